@@ -425,6 +425,10 @@ fn form_literal_bytes(n: &mut Node, walk: &Walk) -> PassAction {
                             // example, if we have (<=ab), then we will get Cat(b, a) but we want
                             // literal bytes "ab".
                             curr_bytes.append(prev_bytes);
+                            // `append` leaves the drained buffer allocated. It held the whole
+                            // literal merged so far, so keeping one per character would take
+                            // memory quadratic in the length of the literal.
+                            *prev_bytes = Vec::new();
                         } else {
                             prev_bytes.append(curr_bytes);
                             core::mem::swap(prev_bytes, curr_bytes);
